@@ -7,7 +7,9 @@ WT=/tmp/wt-lead
 git -C $WT checkout -q --detach $(git -C /repo rev-parse HEAD) 2>/dev/null
 git -C $WT checkout -q -- . ; git -C $WT clean -fdq
 git -C $WT apply "$patch" || { echo "PATCH DOES NOT APPLY"; exit 3; }
+cp /verif/evidence/$prop.json /tmp/ev_$prop.json.bak 2>/dev/null
 cd /verif && VERIF_REPO=$WT timeout 3000 ./check $prop --tier $tier 2>&1 | grep -E "^(VIOLATION|OK|KNOWN|TOOL)" | cut -c1-220
 rc=${PIPESTATUS[0]}
+cp /tmp/ev_$prop.json.bak /verif/evidence/$prop.json 2>/dev/null
 git -C $WT checkout -q -- . ; git -C $WT clean -fdq
 exit $rc
